@@ -682,6 +682,126 @@ fn pair_case(w: &mut CaseWriter, a_ops: &[Op], b_ops: &[Op], probes: &[u64], _ke
     }
 }
 
+/// C03: replicas of one history, merged in every order and grouping.
+fn mode_c03(w: &mut CaseWriter, args: &Args, rng: &mut Rng) {
+    let base = 75_000_000u64;
+    let keys = [1u64, 2, 3];
+    let pool_in: Vec<u64> = vec![mk(base, 0, 1), mk(base, 1, 1), mk(base + 3, 0, 1), mk(base, 0, 2), mk(base + 3, 0, 2), mk(base + 4, 1, 2)];
+    let pool_out: Vec<u64> = vec![mk(base, 0, 1), mk(base + W_TICKS, 0, 1), mk(base + W_TICKS + 1, 1, 1), mk(base + 1, 0, 2), mk(base + 2 * W_TICKS, 0, 2), mk(base + 2 * W_TICKS + 1, 0, 2)];
+    let mut n_ex = 0u64;
+    let hl = if args.thorough() { 4 } else { 3 };
+    for (pool, within) in [(&pool_in, true), (&pool_out, false)] {
+        let n = pool.len();
+        for len in 1..=hl {
+            let mut idx = vec![0usize; len];
+            'outer: loop {
+                if idx.windows(2).all(|p| p[0] < p[1]) {
+                    for kinds in 0..(1u32 << len) {
+                        for keysel in 0..3u32.pow(len as u32) {
+                            if len == 3 && (kinds + keysel) % (if args.thorough() { 1 } else { 3 }) != 0 { continue; }
+                            if len == 4 && (kinds * 7 + keysel) % 11 != 0 { continue; }
+                            let mut ks = keysel;
+                            let h: Vec<Op> = (0..len).map(|i| {
+                                let k = keys[(ks % 3) as usize]; ks /= 3;
+                                Op { del: (kinds >> i) & 1 == 1, src: (i % 2), key: k, t: pool[idx[i]] }
+                            }).collect();
+                            // three replicas: every triple of subsets for len <= 2, a rotating sample beyond
+                            let nsub = 1u32 << len;
+                            for sa in 0..nsub {
+                                for sb in 0..nsub {
+                                    let sc_list: Vec<u32> = if len <= 2 { (0..nsub).collect() } else { vec![(sa * 5 + sb * 3 + 1) % nsub, nsub - 1] };
+                                    for sc in sc_list {
+                                        let sub = |m: u32, rev: bool| -> Vec<Op> {
+                                            let mut v: Vec<Op> = (0..len).filter(|i| (m >> i) & 1 == 1).map(|i| h[i]).collect();
+                                            if rev { v.reverse(); }
+                                            v
+                                        };
+                                        triple_case(w, &sub(sa, false), &sub(sb, true), &sub(sc, false), pool, &keys, within);
+                                        n_ex += 1;
+                                    }
+                                }
+                            }
+                        }
+                    }
+                }
+                let mut p = len;
+                loop {
+                    if p == 0 { break 'outer; }
+                    p -= 1;
+                    idx[p] += 1;
+                    if idx[p] < n { break; }
+                    idx[p] = 0;
+                }
+            }
+        }
+    }
+    let n_random = if args.thorough() { 20_000 } else { 2_000 };
+    for _ in 0..n_random {
+        let spread = *rng.pick(&[60u64, W_TICKS - 1, 3 * W_TICKS]);
+        let keys8 = [1u64, 2, 3, 4, 5, 6, 7, 8];
+        let mut h: Vec<Op> = Vec::new();
+        for _ in 0..(2 + rng.below(12)) {
+            let t = mk(base + rng.below(spread), rng.below(2), 1 + rng.below(3));
+            if h.iter().any(|o| o.t == t) { continue; }
+            h.push(Op { del: rng.chance(2, 5), src: rng.below(2) as usize, key: *rng.pick(&keys8), t });
+        }
+        let pick = |rng: &mut Rng| -> Vec<Op> { let mut v: Vec<Op> = h.iter().filter(|_| rng.chance(2, 3)).cloned().collect(); rng.shuffle(&mut v); v };
+        let (a, b, c) = (pick(rng), pick(rng), pick(rng));
+        let probes: Vec<u64> = h.iter().map(|o| o.t).take(10).collect();
+        triple_case(w, &a, &b, &c, &probes, &keys8, spread < W_TICKS);
+    }
+    w.stats.add("triples", n_ex);
+}
+
+fn triple_case(w: &mut CaseWriter, a_ops: &[Op], b_ops: &[Op], c_ops: &[Op], probes: &[u64], keys: &[u64], within: bool) {
+    type S = OrSWotSet<2>;
+    let mut toks: Vec<String> = Vec::new();
+    for (i, ops) in [a_ops, b_ops, c_ops].iter().enumerate() {
+        toks.push(format!("@{}", i));
+        toks.extend(ops.iter().map(|o| o.tok()));
+    }
+    let st = probes_tok(probes);
+    // 3 = a.b   4 = b.a   5 = (a.b).c   6 = b.c then 7 = a.(b.c)
+    for t in ["@3", "C:0", "M:1", &st, "@4", "C:1", "M:0", &st, "@5", "C:3", "M:2", &st, "@6", "C:1", "M:2", "@7", "C:0", "M:6", &st,
+              "@6", "C:0", "M:0", &st, "@6", "C:3", "M:1", &st] {
+        toks.push(t.to_string());
+    }
+    let case = format!("seq 2 0 {}", toks.join(" "));
+    let tv: Vec<&str> = toks.iter().map(|s| s.as_str()).collect();
+    let res = no_panic(|| interpret::<S>(&tv)).unwrap_or_else(|| "panic".into());
+    w.case(&case, &res);
+    // ---- oracle ----
+    let build = |ops: &[Op]| { let mut s = S::default(); for o in ops { if o.del { s.del(o.src, o.key, o.t); } else { s.ins(o.src, o.key, o.t); } } s };
+    let (a, b, c) = (build(a_ops), build(b_ops), build(c_ops));
+    let m = |x: &S, y: &S| { let mut z = x.clone(); z.merge_(y); z };
+    if within {
+        w.stats.hit("triple_within_period");
+        let ab = m(&a, &b);
+        let ba = m(&b, &a);
+        if ab.contents() != ba.contents() { w.fail("merge-not-commutative", &case, &format!("{:?} vs {:?}", ab.contents(), ba.contents())); }
+        let abc1 = m(&ab, &c);
+        let abc2 = m(&a, &m(&b, &c));
+        if abc1.contents() != abc2.contents() { w.fail("merge-not-associative", &case, &format!("{:?} vs {:?}", abc1.contents(), abc2.contents())); }
+        if m(&a, &a).contents() != a.contents() { w.fail("merge-not-idempotent", &case, ""); }
+        if m(&ab, &b).contents() != ab.contents() { w.fail("re-merge-changes-state", &case, ""); }
+        let cba = m(&c, &ba);
+        for k in keys {
+            if abc1.get_(*k) != cba.get_(*k) { w.fail("merged-replicas-distinguishable", &case, &format!("key {:x}", k)); }
+        }
+        // the merged live ids are the per-key greatest-stamp operations of what a and b hold
+        let (ea, da) = a.contents(); let (eb, db) = b.contents();
+        let mut best: BTreeMap<u64, (u64, bool)> = BTreeMap::new();
+        for (list, dead) in [(&ea, false), (&da, true), (&eb, false), (&db, true)] {
+            for (k, t) in list.iter() {
+                let e = best.entry(*k).or_insert((*t, dead));
+                if ts(e.0) < ts(*t) { *e = (*t, dead); }
+            }
+        }
+        let want_live: Pairs = best.iter().filter(|(_, v)| !v.1).map(|(k, v)| (*k, v.0)).collect();
+        if ab.contents().0 != want_live { w.fail("merge-not-per-key-maximum", &case, &format!("{:?} vs {:?}", ab.contents().0, want_live)); }
+    }
+}
+
 fn permute(p: &mut Vec<usize>, k: usize, f: &mut dyn FnMut(&[usize])) {
     if k == p.len() {
         f(p);
@@ -749,6 +869,7 @@ fn main() {
         "c04" => mode_c04(&mut w, &args, &mut rng),
         "c08" => mode_c08(&mut w, &args, &mut rng),
         "c05" => mode_c05(&mut w, &args, &mut rng),
+        "c03" => mode_c03(&mut w, &args, &mut rng),
         _ => panic!("unknown mode"),
     }
     w.finish(&[]);
